@@ -25,7 +25,11 @@ import SarpyModel.Drivers.Loops
 import SarpyModel.Drivers.LoopsChip
 import SarpyModel.Drivers.LoopsSidd
 import SarpyModel.Drivers.NitfAssembly
+import SarpyModel.Drivers.LifeGen
+import SarpyModel.Drivers.CheckerRules
+import SarpyModel.Drivers.CheckerGen
 import SarpyModel.Drivers.Tre
+import SarpyModel.Drivers.NitfDtype
 namespace Sarpy.Drivers
 
 def step (line : String) : String :=
@@ -58,7 +62,11 @@ def step (line : String) : String :=
   | "loopsc" :: rest => (loopscStep rest).getD "bad-op"
   | "loopss" :: rest => (loopssStep rest).getD "bad-op"
   | "nitfasm" :: rest => (nitfasmStep rest).getD "bad-op"
+  | "lifegen" :: rest => (lifeGenStep rest).getD "bad-op"
+  | "chkspec" :: rest => (chkspecStep rest).getD "bad-op"
+  | "chkgen" :: rest => (chkgenStep rest).getD "bad-op"
   | "tre" :: rest => (treStep rest).getD "bad-op"
+  | "nitfdtype" :: rest => (nitfdtypeStep rest).getD "bad-op"
   | _ => "bad-op"
 
 partial def loop (h : IO.FS.Stream) : IO Unit := do
